@@ -474,20 +474,64 @@ Proof.
   unfold fit. rewrite app_length, firstn_length, repeat_length. lia.
 Qed.
 
+(* strconv.FormatUint digits are '0'..'9' *)
+Lemma dec_aux_digits fuel : forall n acc x,
+  In x (dec_aux fuel n acc) -> In x acc \/ (48 <= x /\ x <= 57).
+Proof.
+  induction fuel as [|f IH]; intros n acc x H; cbn [dec_aux] in H; [now left|].
+  assert (D : 48 <= 48 + n mod 10 /\ 48 + n mod 10 <= 57).
+  { pose proof (N.mod_upper_bound n 10). lia. }
+  destruct (n <? 10).
+  - destruct H as [<-|H]; [right; exact D|now left].
+  - apply IH in H. destruct H as [[<-|H]|H]; [right; exact D|now left|now right].
+Qed.
+
+Lemma dec_digits_no_sep n sep : sep < 48 \/ 57 < sep -> ~ In sep (dec_digits n).
+Proof.
+  intros S H. unfold dec_digits in H. apply dec_aux_digits in H. destruct H as [[]|H]. lia.
+Qed.
+
+(* two strings free of t, each followed by t and the same tail *)
+Lemma separated_prefix_free s1 : forall s2 t e,
+  ~ In t s1 -> ~ In t s2 -> prefix_free_pair (s1 ++ t :: e) (s2 ++ t :: e).
+Proof.
+  induction s1 as [|a s1 IH]; intros s2 t e N1 N2.
+  - destruct s2 as [|b s2]; [now left|]. cbn [app]. apply prefix_free_pair_head.
+    intro E. apply N2. left. now symmetry.
+  - destruct s2 as [|b s2].
+    + cbn [app]. apply prefix_free_pair_head. intro E. apply N1. now left.
+    + cbn [app]. destruct (N.eq_dec a b) as [->|NE].
+      * apply prefix_free_pair_cons. apply IH; intro H; [apply N1|apply N2]; now right.
+      * now apply prefix_free_pair_head.
+Qed.
+
 Lemma tkey_of_prefix_free kc d1 d2 :
   body_ok kc d1 -> body_ok kc d2 -> prefix_free_pair (tkey_of kc d1) (tkey_of kc d2).
 Proof.
-  unfold body_ok, tkey_of. destruct (kc_shape kc) as [n|t]; intros H1 H2; unfold new_tkey.
+  unfold body_ok, tkey_of. destruct (kc_shape kc) as [n|t|n|sep ext|n]; intros H1 H2; unfold new_tkey.
   - apply prefix_free_pair_eqlen. simpl. now rewrite !fit_length.
   - apply (prefix_free_pair_app [kc_class kc; n_tkeyStandardByte]).
     now apply terminated_prefix_free.
+  - apply prefix_free_pair_eqlen. simpl. congruence.
+  - apply (prefix_free_pair_app [kc_class kc; n_tkeyStandardByte]).
+    apply separated_prefix_free; now apply dec_digits_no_sep.
+  - apply prefix_free_pair_eqlen. now rewrite !fit_length.
+Qed.
+
+(* the first byte of every constructed TKey is its class byte *)
+Lemma tkey_of_head kc d : body_ok kc d -> exists r, tkey_of kc d = kc_class kc :: r.
+Proof.
+  unfold body_ok, tkey_of. destruct (kc_shape kc) as [n|t|n|sep ext|n]; intro H; unfold new_tkey; eauto.
+  destruct H as [Hn Hd]. destruct d as [|x d]; [discriminate|]. cbn [hd_error] in Hd. injection Hd as ->.
+  unfold fit. destruct (N.to_nat n) as [|k] eqn:E; [lia|]. cbn [firstn app]. eauto.
 Qed.
 
 Lemma tkey_of_other_class kc1 kc2 d1 d2 :
+  body_ok kc1 d1 -> body_ok kc2 d2 ->
   kc_class kc1 <> kc_class kc2 -> prefix_free_pair (tkey_of kc1 d1) (tkey_of kc2 d2).
 Proof.
-  intro N. unfold tkey_of. destruct (kc_shape kc1), (kc_shape kc2); unfold new_tkey;
-    now apply prefix_free_pair_head.
+  intros B1 B2 N. destruct (tkey_of_head kc1 d1 B1) as [r1 ->]. destruct (tkey_of_head kc2 d2 B2) as [r2 ->].
+  now apply prefix_free_pair_head.
 Qed.
 
 (* a datatype's key space: the union of its classes *)
@@ -525,6 +569,15 @@ Proof.
   - now apply tkey_of_other_class.
 Qed.
 
+(* different classes never produce the same TKey, nor prefix-related ones *)
+Lemma datatype_classes_disjoint k1 k2 d1 d2 :
+  body_ok k1 d1 -> body_ok k2 d2 -> kc_class k1 <> kc_class k2 ->
+  tkey_of k1 d1 <> tkey_of k2 d2 /\ ~ is_prefix (tkey_of k1 d1) (tkey_of k2 d2).
+Proof.
+  intros B1 B2 N. destruct (tkey_of_head k1 d1 B1) as [r1 ->]. destruct (tkey_of_head k2 d2 B2) as [r2 ->].
+  split; [congruence|]. intros [s H]. cbn [app] in H. congruence.
+Qed.
+
 Lemma keyvalue_prefix_free tk1 tk2 :
   wf_tkey keyclasses_keyvalue tk1 -> wf_tkey keyclasses_keyvalue tk2 -> prefix_free_pair tk1 tk2.
 Proof. apply datatype_prefix_free. reflexivity. Qed.
@@ -537,6 +590,149 @@ Proof. apply datatype_prefix_free. reflexivity. Qed.
 Lemma labelmap_prefix_free tk1 tk2 :
   wf_tkey keyclasses_labelmap tk1 -> wf_tkey keyclasses_labelmap tk2 -> prefix_free_pair tk1 tk2.
 Proof. apply datatype_prefix_free. reflexivity. Qed.
+
+Lemma imageblk_prefix_free tk1 tk2 :
+  wf_tkey keyclasses_imageblk tk1 -> wf_tkey keyclasses_imageblk tk2 -> prefix_free_pair tk1 tk2.
+Proof. apply datatype_prefix_free. reflexivity. Qed.
+Lemma imagetile_prefix_free tk1 tk2 :
+  wf_tkey keyclasses_imagetile tk1 -> wf_tkey keyclasses_imagetile tk2 -> prefix_free_pair tk1 tk2.
+Proof. apply datatype_prefix_free. reflexivity. Qed.
+Lemma labelarray_prefix_free tk1 tk2 :
+  wf_tkey keyclasses_labelarray tk1 -> wf_tkey keyclasses_labelarray tk2 -> prefix_free_pair tk1 tk2.
+Proof. apply datatype_prefix_free. reflexivity. Qed.
+Lemma labelblk_prefix_free tk1 tk2 :
+  wf_tkey keyclasses_labelblk tk1 -> wf_tkey keyclasses_labelblk tk2 -> prefix_free_pair tk1 tk2.
+Proof. apply datatype_prefix_free. reflexivity. Qed.
+Lemma labelsz_prefix_free tk1 tk2 :
+  wf_tkey keyclasses_labelsz tk1 -> wf_tkey keyclasses_labelsz tk2 -> prefix_free_pair tk1 tk2.
+Proof. apply datatype_prefix_free. reflexivity. Qed.
+Lemma labelvol_prefix_free tk1 tk2 :
+  wf_tkey keyclasses_labelvol tk1 -> wf_tkey keyclasses_labelvol tk2 -> prefix_free_pair tk1 tk2.
+Proof. apply datatype_prefix_free. reflexivity. Qed.
+Lemma roi_prefix_free tk1 tk2 :
+  wf_tkey keyclasses_roi tk1 -> wf_tkey keyclasses_roi tk2 -> prefix_free_pair tk1 tk2.
+Proof. apply datatype_prefix_free. reflexivity. Qed.
+(* one tarsupervoxels instance has one Extension *)
+Lemma tarsupervoxels_prefix_free ext tk1 tk2 :
+  wf_tkey (keyclasses_tarsupervoxels ext) tk1 -> wf_tkey (keyclasses_tarsupervoxels ext) tk2 -> prefix_free_pair tk1 tk2.
+Proof. apply datatype_prefix_free. reflexivity. Qed.
+
+(* the unchecked constructors: NewTKeyByCoord / labelvol.NewTKey given strings of different lengths *)
+Lemma raw_not_prefix_free kc n : kc_shape kc = KRaw n ->
+  tkey_of kc [97] <> tkey_of kc [97; 98] /\ is_prefix (tkey_of kc [97]) (tkey_of kc [97; 98]).
+Proof.
+  intro S. unfold tkey_of. rewrite S. split; [discriminate|]. exists [98]. reflexivity.
+Qed.
+(* tarsupervoxels with two extensions, one a prefix of the other (not reachable inside one instance) *)
+Lemma decsep_not_prefix_free d :
+  tkey_of (kc_tarsupervoxels_NewTKey [97]) d <> tkey_of (kc_tarsupervoxels_NewTKey [97; 98]) d
+  /\ is_prefix (tkey_of (kc_tarsupervoxels_NewTKey [97]) d) (tkey_of (kc_tarsupervoxels_NewTKey [97; 98]) d).
+Proof.
+  unfold tkey_of. cbn [kc_shape kc_tarsupervoxels_NewTKey kc_class]. unfold new_tkey. split.
+  - intro H. injection H as H. apply app_inv_head in H. discriminate.
+  - exists [98]. cbn [app]. rewrite <- !app_assoc. reflexivity.
+Qed.
+
+(* two classes of one instance never share a storage key, whatever the versions, clients and markers *)
+Lemma classes_never_collide k1 k2 d1 d2 i v c m v' c' m' :
+  id_ok i -> id_ok v -> id_ok c -> id_ok v' -> id_ok c' ->
+  body_ok k1 d1 -> body_ok k2 d2 -> kc_class k1 <> kc_class k2 ->
+  data_key i (tkey_of k1 d1) v c m <> data_key i (tkey_of k2 d2) v' c' m'.
+Proof.
+  intros Hi Hv Hc Hv' Hc' B1 B2 N H.
+  apply data_key_inj in H; auto. destruct H as (_ & E & _).
+  destruct (datatype_classes_disjoint k1 k2 d1 d2 B1 B2 N) as [NE _]. exact (NE E).
+Qed.
+
+(* ---- TKeyClassRange over the generated classes ---- *)
+(* the classes whose TKeys are made by storage.NewTKey (all but the legacy imagetile key) *)
+Definition has_header (kc : kclass) : Prop :=
+  match kc_shape kc with KLegacy _ => False | _ => True end.
+Definition has_headerb (kc : kclass) : bool :=
+  match kc_shape kc with KLegacy _ => false | _ => true end.
+
+Lemma tkey_of_header kc d : has_header kc -> exists body, tkey_of kc d = new_tkey (kc_class kc) body.
+Proof. unfold has_header, tkey_of. destruct (kc_shape kc); intro H; try contradiction; eauto. Qed.
+
+(* TKeyClassRange(class of kc) of instance i holds exactly the keys of instance i made by a constructor of that class *)
+Lemma class_range_generated kc kc' i i' d v c m :
+  id_ok i -> id_ok i' -> byte_ok (kc_class kc) -> byte_ok (kc_class kc') -> has_header kc' ->
+  (in_range (fst (tkey_class_range i (kc_class kc))) (snd (tkey_class_range i (kc_class kc)))
+            (data_key i' (tkey_of kc' d) v c m) <-> (i' = i /\ kc_class kc' = kc_class kc)).
+Proof.
+  intros Hi Hi' B B' H. destruct (tkey_of_header kc' d H) as [body ->]. now apply class_range.
+Qed.
+
+(* every table the translator produced (this list is written by hand: a new datatype package adds a table to
+   Gen/KeyClasses.v and must be added here) *)
+Definition all_keyclasses (ext : bytes) : list kclass :=
+  keyclasses_keyvalue ++ keyclasses_neuronjson ++ keyclasses_annotation ++ keyclasses_labelmap ++
+  keyclasses_imageblk ++ keyclasses_imagetile ++ keyclasses_labelarray ++ keyclasses_labelblk ++
+  keyclasses_labelsz ++ keyclasses_labelvol ++ keyclasses_roi ++ keyclasses_tarsupervoxels ext.
+
+Lemma all_keyclasses_byte_ok ext kc : In kc (all_keyclasses ext) ->
+  byte_ok (kc_class kc) /\ (has_header kc \/ kc_shape kc = kc_shape kc_imagetile_NewTKey).
+Proof.
+  intro H.
+  assert (F : forallb (fun k => (kc_class k <? 256) &&
+                match kc_shape k with KLegacy n => n =? 21 | _ => true end) (all_keyclasses ext) = true)
+    by reflexivity.
+  rewrite forallb_forall in F. specialize (F kc H). rewrite andb_true_iff in F.
+  destruct F as [F1 F2]. split; [unfold byte_ok; now apply N.ltb_lt|].
+  unfold has_header. destruct (kc_shape kc); auto. right. apply N.eqb_eq in F2. now subst.
+Qed.
+
+(* ---- SplitKey / MergeKey ---- *)
+Lemma merge_split k u v : split_key k = Ok (u, v) -> merge_key u v = k.
+Proof.
+  unfold split_key, merge_key. destruct k as [|p r]; [discriminate|].
+  destruct (p =? n_metadataKeyPrefix).
+  - intro H. apply Ok_inj in H. injection H as <- <-. apply app_nil_r.
+  - destruct (p =? n_dataKeyPrefix); [|discriminate].
+    destruct (suffix_start (p :: r) <? 0)%Z; [discriminate|].
+    intro H. apply Ok_inj in H. injection H as <- <-. apply firstn_skipn.
+Qed.
+
+Lemma split_data_key i tk v c m :
+  split_key (data_key i tk v c m) = Ok (unversioned_prefix i tk, key_suffix v c m).
+Proof.
+  unfold split_key. rewrite suffix_start_data_key.
+  unfold data_key at 1. rewrite N.eqb_refl.
+  replace (n_dataKeyPrefix =? n_metadataKeyPrefix) with false by reflexivity.
+  replace (Z.of_nat (5 + length tk) <? 0)%Z with false by (symmetry; apply Z.ltb_ge; lia).
+  rewrite Nat2Z.id. f_equal.
+  assert (E : data_key i tk v c m = unversioned_prefix i tk ++ key_suffix v c m).
+  { unfold data_key, unversioned_prefix, key_suffix. cbn [app]. now rewrite <- !app_assoc. }
+  assert (L : length (unversioned_prefix i tk) = (5 + length tk)%nat).
+  { unfold unversioned_prefix. cbn [length]. rewrite app_length, iid_bytes_length. reflexivity. }
+  rewrite E, <- L. f_equal.
+  - rewrite firstn_app, Nat.sub_diag, firstn_all. cbn [firstn]. apply app_nil_r.
+  - rewrite skipn_app, Nat.sub_diag, skipn_all. reflexivity.
+Qed.
+
+(* the two components of SplitKey carry exactly what the parsers return *)
+Lemma split_components i tk v c m : id_ok i -> id_ok v -> id_ok c ->
+  exists u s, split_key (data_key i tk v c m) = Ok (u, s)
+    /\ u = n_dataKeyPrefix :: iid_bytes i ++ tk
+    /\ s = vid_bytes v ++ cid_bytes c ++ [m]
+    /\ tkey_from_key (Some (merge_key u s)) = Ok tk
+    /\ data_key_to_local_ids (merge_key u s) = Ok (i, v, c)
+    /\ length s = suffix_size.
+Proof.
+  intros Hi Hv Hc. exists (unversioned_prefix i tk), (key_suffix v c m).
+  split; [apply split_data_key|]. split; [reflexivity|]. split; [reflexivity|].
+  assert (E : merge_key (unversioned_prefix i tk) (key_suffix v c m) = data_key i tk v c m).
+  { apply merge_split, split_data_key. }
+  rewrite E. split; [apply tkey_from_data_key|]. split; [now apply local_ids_of_data_key|].
+  apply key_suffix_length.
+Qed.
+
+Lemma split_metadata_key tk : split_key (metadata_key tk) = Ok (metadata_split_key tk).
+Proof. unfold split_key, metadata_key. now rewrite N.eqb_refl. Qed.
+
+Lemma split_blob_key k : split_key (blob_key k) = Err.
+Proof. reflexivity. Qed.
+
 
 (* the terminated classes stop being prefix free as soon as the terminator may occur inside:
    "a" and "a\000b" *)
